@@ -144,3 +144,46 @@ func vpH_C06_floodsub() {
 }
 
 var _ = pb.TraceEvent_JOIN
+
+// randomsub: within the degree bound where its random selection is exhaustive (at most RandomSubD randomsub peers; here
+// P=3, each speaking floodsub or randomsub - a mixed network) the router sends one copy to every topic peer it has a
+// stream to except the source and the author, none for a local-only publication.
+func vpH_C06_randomsub() {
+	nd := vpNewNode("self", vpNodeCfg{router: "randomsub"})
+	peers := []peer.ID{"p0", "p1", "p2"}
+	tm := map[peer.ID]peerTopicState{}
+	nd.ps.topics[vpT0] = tm
+	var qs []*rpcQueue
+	var up, inT []bool
+	for _, p := range peers {
+		u, t, fs := vpBool("up"), vpBool("in_topic"), vpBool("speaks_floodsub")
+		var q *rpcQueue
+		if u {
+			proto := RandomSubID
+			if fs {
+				proto = FloodSubID
+			}
+			q = nd.vpAddPeer(p, proto, true)
+		}
+		if t {
+			tm[p] = peerTopicState{}
+		}
+		qs, up, inT = append(qs, q), append(up, u), append(inT, t)
+	}
+	src := []peer.ID{"self", "p0", "p1"}[vpInt("source", 0, 2)]
+	auth := []peer.ID{"self", "p0", "p2", "stranger"}[vpInt("author", 0, 3)]
+	local := vpBool("local_only")
+	msg := vpMkMsg(string(auth), "1", vpT0)
+	msg.ReceivedFrom, msg.Local = src, local
+	nd.ps.publishMessage(msg)
+	for i, p := range peers {
+		wire := vpReadWire(qs[i])
+		sent := len(wire.msgs) > 0
+		want := up[i] && inT[i] && p != src && p != auth && !local
+		vpAssert(sent == want && len(wire.msgs) <= 1, "randomsub (exhaustive range) sends one copy to every topic peer except the source and the author, none for a local-only publication")
+		if sent {
+			vpAssert(wire.msgs[0] == msg.Message, "the copy is the accepted message itself")
+		}
+	}
+	vpCover(!local && up[2] && inT[2] && auth != "p2", "p2 served")
+}
